@@ -16,8 +16,8 @@ def run(ctx):
                 "as Go values by position; Marshal twice, DecodeUnknownObject and Decode of the output must give the value back; distinct = "
                 "constructors" % (3 if ctx.tier == "thorough" else 2),
         "samples": rep["samples"], "exhaustive": False, "cases": ncases, "disagreement_signatures": mine,
-    }, ["values are compared with reflect.DeepEqual; required slices are built non-nil", "gzip_packed, msg_container, msg_copy, rpc_result have hand-written codecs: "
-        "exercised in the decode direction by C09/C15/C16, not round-tripped"])
+    }, ["values are compared with reflect.DeepEqual; required slices are built non-nil", "the hand-written codecs msg_container (0..3 items), rpc_result and gzip_packed are round-tripped through their own "
+        "specification images (TLCodecGen!SpecialCases); msg_copy and future_salts only in the decode direction (C15/C16)"])
 
 
 def replay(ctx, path):
